@@ -101,8 +101,8 @@ Proof.
   rewrite tr_conf_line_equiv, apply_line_effects. destruct (content_line seg); apply IH.
 Qed.
 
-Theorem tr_conf_line_frame_pinned : tr_conf_line_frame = true.
-Proof. reflexivity. Qed.
+Theorem tr_conf_line_frame_pinned : tr_conf_line_frame = true /\ tr_conf_decode_loop_frame = true /\ tr_conf_tag_cases_frame = true.
+Proof. repeat split; reflexivity. Qed.
 
 (* ------------------------------------------------------------------------------------------- *)
 (* the typed getters: c.root.getValue(path) is the model's element lookup (value of the element, "not find") *)
